@@ -22,8 +22,8 @@ import (
 // tunew / tulookup / tuall.
 
 func init() {
-	addRun("C13", "code-to-CID and code-to-text maps over eight code space range sets (1-4 byte and mixed lengths): runs of consecutive codes and values of random length, runs crossing the last-byte boundary (..FE,..FF,..00), CID wrap-around at 2^32, astral and multi-rune text, neighbours of the surrogate gap and of U+10FFFF (U+D7FF, U+E000, U+FFFD, U+FFFE), parent chains of depth 0-2 with shadowing and equal entries, notdef singles and ranges; hand-built files with overlapping/invalid/rectangular ranges and short value lists; every map is built, looked up for every mapped code and for unmapped neighbours, enumerated, written into a real PDF file (pretty and compressed, two versions), read back with a Reader and compared structurally, by lookup and by enumeration. A case is one (construction or file, probe set); non-trivial when the map has a run of length >= 2 or a parent; distinct by wire form.", runC13)
-	for _, o := range []string{"lookup-mapped", "lookup-unmapped", "all-enumerates", "embed-extract", "tu-lookup", "tu-all", "tu-embed-extract", "rangeindex-enum", "c13-no-panic"} {
+	addRun("C13", "code-to-CID and code-to-text maps over eight code space range sets (1-4 byte and mixed lengths): runs of consecutive codes and values of random length, runs crossing the last-byte boundary (..FE,..FF,..00), CID wrap-around at 2^32, astral and multi-rune text, neighbours of the surrogate gap and of U+10FFFF (U+D7FF, U+E000, U+FFFD, U+FFFE), parent chains of depth 0-2 with shadowing and equal entries, notdef singles and ranges; hand-built files with overlapping/invalid/rectangular ranges and short value lists; hand-built files over (almost) all 4-byte codes with notdef ranges and cidranges of more than 2^31 codes, probed at the low end, the middle, positions 2^31-1, 2^31, 2^31+1 and the top of every range and just outside (LookupCID and LookupNotdefCID against a reference semantics, before and after the file round trip; only the enumeration is left out there); every map is built, looked up for every mapped code and for unmapped neighbours, enumerated, written into a real PDF file (pretty and compressed, two versions), read back with a Reader and compared structurally, by lookup and by enumeration. A case is one (construction or file, probe set); non-trivial when the map has a run of length >= 2 or a parent; distinct by wire form.", runC13)
+	for _, o := range []string{"lookup-mapped", "lookup-unmapped", "all-enumerates", "embed-extract", "tu-lookup", "tu-all", "tu-embed-extract", "rangeindex-enum", "c13-no-panic", "notdef-position-independent"} {
 		addReplay("C13", o, replayC13)
 	}
 }
@@ -617,7 +617,7 @@ func cmSetMappingSafe(f *cmap.File, codec *charcode.Codec, data map[charcode.Cod
 // (with parents) against the expectation `want` (nil = no expectation, only
 // self-consistency and the round trip).
 func cmCheckCIDFile(c *Ctx, r *Rand, f *cmap.File, codec *charcode.Codec, codecCSR charcode.CodeSpaceRange,
-	probes [][]byte, opts []cmWriteOpt, emit bool, structural bool) (viol []cmViol) {
+	probes [][]byte, opts []cmWriteOpt, emit bool, structural bool, skipEnum bool) (viol []cmViol) {
 	bad := func(o, d string) { viol = append(viol, cmViol{o, d}) }
 	defer func() {
 		if p := recover(); p != nil {
@@ -631,13 +631,18 @@ func cmCheckCIDFile(c *Ctx, r *Rand, f *cmap.File, codec *charcode.Codec, codecC
 		look[i] = strconv.FormatUint(uint64(f.LookupCID(b)), 10)
 		nd[i] = strconv.FormatUint(uint64(f.LookupNotdefCID(b)), 10)
 	}
-	allSeq := cmAllSeq(f, codec)
+	// (skipEnum: files with huge ranges — the enumeration only runs into the MaxCMapMappings cap;
+	// every lookup oracle is kept, only the enumeration is left out)
+	allSeq := ""
+	if !skipEnum {
+		allSeq = cmAllSeq(f, codec)
+	}
 	if c != nil && emit {
 		cw := cmChainWire(f)
 		pw := ccBytesList(probes)
 		c.Emit("CC lookup "+cw+" "+pw, "ok "+ccJoin(look))
 		c.Emit("CC notdef "+cw+" "+pw, "ok "+ccJoin(nd))
-		if len(allSeq) < 200000 {
+		if !skipEnum && len(allSeq) < 200000 {
 			c.Emit("CC all "+cw+" "+ccCSRWire(codecCSR), "ok "+allSeq)
 		}
 	}
@@ -727,6 +732,17 @@ func cmCheckCIDFile(c *Ctx, r *Rand, f *cmap.File, codec *charcode.Codec, codecC
 				bad("embed-extract", fmt.Sprintf("%v: LookupCID(%x) = %s after extraction, %s before", o, pb, got, look[i]))
 				break
 			}
+			if got := strconv.FormatUint(uint64(g.LookupNotdefCID(pb)), 10); got != nd[i] {
+				bad("embed-extract", fmt.Sprintf("%v: LookupNotdefCID(%x) = %s after extraction, %s before", o, pb, got, nd[i]))
+				break
+			}
+		}
+		if skipEnum {
+			if c != nil {
+				c.Stat("cid_roundtrips")
+				c.Stat("cid_roundtrips_lookup_only_huge_ranges")
+			}
+			continue
 		}
 		got := cmAllSeq(g, codec)
 		if structural {
@@ -919,7 +935,7 @@ func cmCaseCID(c *Ctx, r *Rand, emit bool) (key string, viol []cmViol, nontrivia
 			}
 		}
 	}
-	viol = append(viol, cmCheckCIDFile(c, r, f, codec, sp.csr, probes, cmPickOpts(r, 1), emit, true)...)
+	viol = append(viol, cmCheckCIDFile(c, r, f, codec, sp.csr, probes, cmPickOpts(r, 1), emit, true, false)...)
 	return
 }
 
@@ -984,7 +1000,7 @@ func cmCaseHandBuilt(c *Ctx, r *Rand, emit bool) (key string, viol []cmViol) {
 	}
 	probes := cmProbes(r, sp.csr, codes, 10)
 	key = "hand " + cmChainWire(f)
-	viol = cmCheckCIDFile(c, r, f, codec, sp.csr, probes, cmPickOpts(r, 1), emit, false)
+	viol = cmCheckCIDFile(c, r, f, codec, sp.csr, probes, cmPickOpts(r, 1), emit, false, false)
 	return
 }
 
@@ -1376,6 +1392,252 @@ func cmCaseRangeEnum(c *Ctx, r *Rand, emit bool) (key string, viol []cmViol) {
 	return
 }
 
+// ---- huge ranges: more than 2^31 codes in one cidrange / notdef range ----
+
+// cmCodeAt returns the code at mixed-radix position pos (most significant byte first) of the box.
+func cmCodeAt(first, last []byte, pos uint64) ([]byte, bool) {
+	code := make([]byte, len(first))
+	for i := len(first) - 1; i >= 0; i-- {
+		span := uint64(last[i]) - uint64(first[i]) + 1
+		code[i] = first[i] + byte(pos%span)
+		pos /= span
+	}
+	return code, pos == 0
+}
+
+func cmBoxCount(first, last []byte) uint64 {
+	n := uint64(1)
+	for i := range first {
+		n *= uint64(last[i]) - uint64(first[i]) + 1
+	}
+	return n
+}
+
+// cmBoxPos: position of code in the box (ok=false outside).
+func cmBoxPos(first, last, code []byte) (uint64, bool) {
+	if !cmInBox(first, last, code) {
+		return 0, false
+	}
+	var pos uint64
+	for i := range code {
+		pos = pos*(uint64(last[i])-uint64(first[i])+1) + uint64(code[i]-first[i])
+	}
+	return pos, true
+}
+
+// reference semantics of the lookups, written from the documentation of File:
+// a cidrange maps the code at position p to Value+p, but only positions up to MaxInt32 are mapped
+// (rangeIndex); a notdef range gives its value to EVERY code of the box.
+func cmRefMapped(f *cmap.File, code []byte) (cid.CID, bool) {
+	for g := f; g != nil; g = g.Parent {
+		for _, s := range g.CIDSingles {
+			if bytes.Equal(s.Code, code) {
+				return s.Value, true
+			}
+		}
+		for _, rg := range g.CIDRanges {
+			if p, ok := cmBoxPos(rg.First, rg.Last, code); ok && p <= 0x7fffffff {
+				return rg.Value + cid.CID(p), true
+			}
+		}
+	}
+	return 0, false
+}
+
+func cmRefNotdef(f *cmap.File, code []byte) cid.CID {
+	for g := f; g != nil; g = g.Parent {
+		for _, s := range g.NotdefSingles {
+			if bytes.Equal(s.Code, code) {
+				return s.Value
+			}
+		}
+		for _, rg := range g.NotdefRanges {
+			if cmInBox(rg.First, rg.Last, code) {
+				return rg.Value
+			}
+		}
+	}
+	return 0
+}
+
+func cmHugeSpaces() []cmSpace {
+	h := func(lo, hi string) charcode.Range {
+		a, _ := ccUnhex(lo)
+		b, _ := ccUnhex(hi)
+		return charcode.Range{Low: a, High: b}
+	}
+	return []cmSpace{
+		{"huge4", charcode.CodeSpaceRange{h("00", "1f"), h("20000000", "ffffffff")}},
+		{"full4", charcode.CodeSpaceRange{h("00000000", "ffffffff")}},
+	}
+}
+
+// cmCaseHuge: hand-built files over a code space with (almost) all 4-byte codes, with notdef
+// ranges and cidranges of more than 2^31 codes.  Probes: the low end, the middle, positions
+// 2^31-1, 2^31, 2^31+1 and the top of every range, and codes just outside.  Oracles: LookupCID
+// and LookupNotdefCID against the reference semantics above, before and after the file round trip;
+// model correspondence for the same probes.  The enumeration is left out (it only hits the cap).
+func cmCaseHuge(c *Ctx, r *Rand, emit bool) (key string, viol []cmViol) {
+	bad := func(o, d string) { viol = append(viol, cmViol{o, d}) }
+	sp := Pick(r, cmHugeSpaces())
+	codec, err := charcode.NewCodec(sp.csr)
+	if err != nil {
+		bad("c13-no-panic", "NewCodec: "+err.Error())
+		return
+	}
+	four := sp.csr[len(sp.csr)-1]
+	lo0 := four.Low[0]
+	hx := func(s string) []byte { b, _ := ccUnhex(s); return b }
+	// a box inside the 4-byte part whose first byte runs from a to b
+	box := func(a, b byte, full bool) ([]byte, []byte) {
+		first := []byte{a, 0, 0, 0}
+		last := []byte{b, 0xff, 0xff, 0xff}
+		if !full {
+			// rectangular: one inner byte restricted
+			k := 1 + r.Intn(3)
+			first[k] = byte(r.Intn(3))
+			last[k] = 0xff - byte(r.Intn(3))
+		}
+		return first, last
+	}
+	mk := func(level int) *cmap.File {
+		f := &cmap.File{Name: fmt.Sprintf("Huge-L%d", level), ROS: cmROS, CodeSpaceRange: sp.csr}
+		// notdef: a huge range (several shapes around the 2^31 boundary), optionally a second,
+		// disjoint one that must be reached when the first does not apply
+		var nf, nl []byte
+		switch r.Intn(5) {
+		case 0:
+			nf, nl = append([]byte{}, four.Low...), append([]byte{}, four.High...) // all 4-byte codes
+		case 1:
+			nf, nl = hx("80000000"), hx("ffffffff") // exactly 2^31 codes: top position 2^31-1
+		case 2:
+			nf, nl = hx("7f000000"), hx("ffffffff") // a little more than 2^31
+		case 3:
+			nf, nl = box(lo0+byte(r.Intn(4)), 0xff-byte(r.Intn(4)), r.Bool())
+		default:
+			nf, nl = box(max(lo0, 0x40), 0xdf, false)
+		}
+		f.NotdefRanges = append(f.NotdefRanges, cmap.Range{First: nf, Last: nl, Value: cid.CID(1 + r.Intn(9))})
+		if r.P(1, 2) && nf[0] > lo0 {
+			f2, l2 := []byte{lo0, 0, 0, 0}, []byte{nf[0] - 1, 0xff, 0xff, 0xff}
+			f.NotdefRanges = append(f.NotdefRanges, cmap.Range{First: f2, Last: l2, Value: cid.CID(10 + r.Intn(9))})
+		}
+		if r.P(1, 3) {
+			f.NotdefSingles = append(f.NotdefSingles, cmap.Single{Code: cmRandomCodeBytes(r, sp.csr), Value: cid.CID(20 + r.Intn(9))})
+		}
+		// mappings: one huge cidrange, or a few small ones with different first bytes
+		switch r.Intn(3) {
+		case 0:
+			cf, cl := box(max(lo0, 0x30), 0xff, r.Bool())
+			f.CIDRanges = append(f.CIDRanges, cmap.Range{First: cf, Last: cl, Value: cid.CID(Pick(r, cmCIDStarts))})
+		case 1:
+			for k := 0; k < 3; k++ {
+				b0 := max(lo0, 0x21) + byte(40*k+r.Intn(30))
+				cf := []byte{b0, byte(r.Intn(256)), 0, 0xf0}
+				cl := []byte{b0, cf[1], byte(r.Intn(4)), 0xff}
+				f.CIDRanges = append(f.CIDRanges, cmap.Range{First: cf, Last: cl, Value: cid.CID(r.Intn(70000))})
+			}
+		}
+		if r.P(1, 2) {
+			f.CIDSingles = append(f.CIDSingles, cmap.Single{Code: []byte{lo0, 1, 2, 3}, Value: cid.CID(r.Intn(1000))})
+		}
+		return f
+	}
+	f := mk(0)
+	if r.P(1, 3) {
+		f.Parent = mk(1)
+	}
+	key = "huge " + cmChainWire(f)
+
+	// probes
+	seen := map[string]bool{}
+	var probes [][]byte
+	add := func(b []byte) {
+		if b != nil && !seen[string(b)] {
+			seen[string(b)] = true
+			probes = append(probes, b)
+		}
+	}
+	addBox := func(first, last []byte) {
+		n := cmBoxCount(first, last)
+		for _, p := range []uint64{0, 1, n / 2, 1<<31 - 2, 1<<31 - 1, 1 << 31, 1<<31 + 1, 1<<31 + 12345, n - 2, n - 1} {
+			if p < n {
+				if code, ok := cmCodeAt(first, last, p); ok {
+					add(code)
+				}
+			}
+		}
+		add(cmSucc(last))
+		pr := append([]byte{}, first...)
+		for i := len(pr) - 1; i >= 0; i-- {
+			pr[i]--
+			if pr[i] != 0xff {
+				break
+			}
+		}
+		add(pr)
+		for i := 0; i < 4; i++ {
+			if code, ok := cmCodeAt(first, last, r.U64()%n); ok {
+				add(code)
+			}
+		}
+	}
+	for g := f; g != nil; g = g.Parent {
+		for _, rg := range g.NotdefRanges {
+			addBox(rg.First, rg.Last)
+		}
+		for _, rg := range g.CIDRanges {
+			addBox(rg.First, rg.Last)
+		}
+		for _, s := range g.CIDSingles {
+			add(s.Code)
+		}
+		for _, s := range g.NotdefSingles {
+			add(s.Code)
+		}
+	}
+	add([]byte{0xa0, 0, 0, 0})
+	add([]byte{0xff, 0xff, 0xff, 0xff})
+	add([]byte{lo0, 0, 0, 0})
+	add([]byte{0x10})
+	add([]byte{0xa0, 0, 0})
+	for i := 0; i < 6; i++ {
+		add(cmRandomCodeBytes(r, sp.csr))
+	}
+
+	// oracles before writing
+	func() {
+		defer func() {
+			if p := recover(); p != nil {
+				bad("c13-no-panic", fmt.Sprintf("panic: %v", p))
+			}
+		}()
+		for _, b := range probes {
+			wantND := cmRefNotdef(f, b)
+			if got := f.LookupNotdefCID(b); got != wantND {
+				bad("notdef-position-independent", fmt.Sprintf("%s: LookupNotdefCID(%x) = %d, the notdef entries of %s give %d (a notdef range applies to every code of its box, whatever its position)", sp.name, b, got, truncate(cmChainWire(f)), wantND))
+			}
+			want, mapped := cmRefMapped(f, b)
+			if !mapped {
+				want = wantND
+			}
+			if got := f.LookupCID(b); got != want {
+				o := "lookup-unmapped"
+				if mapped {
+					o = "lookup-mapped"
+				}
+				bad(o, fmt.Sprintf("%s: LookupCID(%x) = %d, want %d (mapped=%v) in %s", sp.name, b, got, want, mapped, truncate(cmChainWire(f))))
+			}
+		}
+	}()
+	if c != nil {
+		c.Stat("huge_range_files")
+		c.StatN("huge_range_probes", len(probes))
+	}
+	viol = append(viol, cmCheckCIDFile(c, r, f, codec, sp.csr, probes, cmPickOpts(r, 1), emit, false, true)...)
+	return
+}
+
 func cmReport(c *Ctx, key string, viol []cmViol, replay string) {
 	for _, v := range viol {
 		c.Violate(cmOracleName(v.oracle), v.oracle, v.desc, replay)
@@ -1406,6 +1668,8 @@ func replayC13(input string) (bool, string) {
 		_, viol = cmCaseTUHand(nil, r, false)
 	case "enum":
 		_, viol = cmCaseRangeEnum(nil, r, false)
+	case "huge":
+		_, viol = cmCaseHuge(nil, r, false)
 	case "fixed":
 		viol = cmFixed(nil)
 	}
@@ -1519,6 +1783,14 @@ func runC13(c *Ctx) {
 		key, viol = cmCaseRangeEnum(c, rr, true)
 		c.Case(key, true)
 		cmReport(c, key, viol, "enum "+strconv.FormatUint(st, 10))
+
+		if i%10 == 0 {
+			rr = r.Fork()
+			st = rr.s
+			key, viol = cmCaseHuge(c, rr, true)
+			c.Case(key, true)
+			cmReport(c, key, viol, "huge "+strconv.FormatUint(st, 10))
+		}
 
 		if i%2 == 0 {
 			rr = r.Fork()
